@@ -176,6 +176,14 @@ func init() {
 			if sd < freq {
 				sd = freq
 			}
+			if k%5 == 4 {
+				// the peak lies OUTSIDE the repeat window, 5.5 to 9 standard deviations beyond its end (e.g. hourly windows
+				// of a daily profile): the window still delivers its volume, rising towards its last tick
+				nTicks = []int{360, 1440, 3600}[c.rng.Intn(3)]
+				repeat = time.Duration(nTicks) * freq
+				sd = time.Duration(float64(repeat) * (0.3 + 0.7*c.rng.Float64()))
+				peak = repeat + time.Duration(float64(sd)*(5.5+3.5*c.rng.Float64()))
+			}
 			vol := float64([]int{100, 1000, 5000, 86400, 100000}[c.rng.Intn(5)] + c.rng.Intn(50))
 			var weights []float64
 			switch c.rng.Intn(4) {
